@@ -43,6 +43,8 @@ def run_case(case, acc):
     dn, primes, k, covers, Fp, Cp = cv.reference(
         case['grid'], case['f'], case['care'])
     acc.ev(dict(c=case), nontrivial=len(covers) >= 2)
+    if case['grid'] in ('b5', 'g444'):
+        acc.count('sampled_instances_beyond_the_exhaustive_scope')
     ms = cove.minimize(f, care, ctx)
     got = {cv.read_cover(ctx, m, dn) for m in ms}
     if len(got) != len(ms):
